@@ -1005,6 +1005,13 @@ fn eval_streams(case: &StreamCase, ev: &mut Evaluation) {
     ev.add("comparisons", trace.execs.len() as u64);
     ev.add("lines_executed", trace.execs.len() as u64);
     ev.add("comparisons_after_restore", after_restore);
+    // State feature vectors: the \\ifeof vector (which streams are open) as the VM reported it.
+    for ex in &trace.execs {
+        if ex.obs.out.starts_with('(') && ex.obs.out.len() == 18 {
+            let open = ex.obs.out.chars().filter(|c| *c == 'N').count();
+            ev.states.insert(format!("open_streams={open} after_restore={}", ex.generation > 0));
+        }
+    }
     let reads = case.ops.iter().filter(|o| matches!(o, SOp::Read { .. })).count();
     let opens = case.ops.iter().filter(|o| matches!(o, SOp::OpenIn { .. })).count();
     ev.add("stream_reads", reads as u64);
